@@ -784,6 +784,75 @@ def check_no_selection_on_the_outcome(ctx, rep):
               f"outcome and no longer leaves the target invariant")
 
 
+def _runs_a_trajectory(fn):
+    """the function calls an integrator: `self._integrator(…)` or a parameter of its own named like one, used as a callable"""
+    params = {a.arg for a in fn.args.args + fn.args.kwonlyargs}
+    for c in ast.walk(fn):
+        if isinstance(c, ast.Call):
+            if self_attr(c.func) in ('_integrator', 'integrator'):
+                return c
+            if isinstance(c.func, ast.Name) and c.func.id in params and 'integrator' in c.func.id:
+                return c
+    return None
+
+
+def check_one_trajectory_per_proposal(ctx, rep):
+    """C16.K (addition) — the position the trajectory starts from is the state the caller evaluated the target at (MCMC keeps log p(q) of the current state and decides on
+    log p(q') − log p(q) + K0 − K1).  Inside a proposal the only trajectory that is integrated is therefore the one bracketed by K0 and K1: nothing reachable from `_step`
+    before or after it runs the integrator (the step-size search of adaptation.py integrates trajectories and leaves the chain where the last one ended — it belongs to the
+    constructor, before the chain exists)."""
+    cls = ctx.classes.get('torchtree.inference.hmc.operator.HMCOperator')
+    step = cls.resolve('_step')
+    if step is None:
+        raise AnalysisError('HMCOperator._step not found')
+    hmc_functions = {}
+    for mname, m in ctx.prog.modules.items():
+        if mname.startswith('torchtree.inference.hmc'):
+            for fname, f in m.functions.items():
+                hmc_functions[fname] = (m, f)
+    seen, stack, offenders, visited = set(), [('HMCOperator._step', cls.module, step[1])], [], 0
+    while stack:
+        qual, mod, fn = stack.pop()
+        if id(fn) in seen:
+            continue
+        seen.add(id(fn))
+        visited += 1
+        if fn is not step[1]:
+            c = _runs_a_trajectory(fn)
+            if c is not None:
+                offenders.append((qual, mod, c))
+                continue
+        for c in ast.walk(fn):
+            if not isinstance(c, ast.Call):
+                continue
+            a = self_attr(c.func)
+            if a:
+                r = cls.resolve(a)
+                if r is not None:
+                    stack.append((f"{r[0].name}.{a}", r[0].module, r[1]))
+            elif isinstance(c.func, ast.Name) and c.func.id in hmc_functions:
+                m2, f2 = hmc_functions[c.func.id]
+                stack.append((c.func.id, m2, f2))
+    own = [c for c in ast.walk(step[1]) if isinstance(c, ast.Call) and self_attr(c.func) == '_integrator']
+    if len(_positive_trajectory_runners(ctx)) < 1:
+        raise AnalysisError('C16.K self-check: no function of the hmc package is recognised as running trajectories (find_reasonable_step_size expected)')
+    rep.check('C16.K', 'HMCOperator._step::one-trajectory-per-proposal', not offenders and len(own) == 1, where(offenders[0][1], offenders[0][2]) if offenders else where(cls.module, step[1]),
+              {'functions_reachable_from_the_proposal': visited, 'integrator_calls_in_step': len(own), 'others': [q for q, _, _ in offenders]},
+              f"{offenders[0][0] if offenders else 'HMCOperator._step'} integrates a trajectory inside the proposal besides the one whose kinetic energies are returned: the chain is moved "
+              f"away from the state the caller evaluated the target at, so the acceptance test combines log p(q') − log p(q) of one starting point with K0 − K1 of another — "
+              f"it is no longer decided on the Hamiltonian difference of the proposal")
+
+
+def _positive_trajectory_runners(ctx):
+    out = []
+    for mname, m in ctx.prog.modules.items():
+        if mname.startswith('torchtree.inference.hmc'):
+            for fname, f in m.functions.items():
+                if _runs_a_trajectory(f) is not None:
+                    out.append(fname)
+    return out
+
+
 SIZE_POSITIVE = """
 def f(parameters, joint):
     a = torch.ones(len(parameters))
@@ -847,7 +916,8 @@ def run(ctx, rep):
     rep.rule('C16.K', "HMCOperator returns K(p0) − K(p1) with both kinetic energies from the same M⁻¹ bracketing the integrator call; sample_momentum ↔ kinetic_energy consistent")
     rep.assumptions += ["Normal(0, s) has variance s²; MultivariateNormal(covariance_matrix=M) has covariance M", "U.backward() adds ∇U into .grad of the current leaves"]
     rep.not_decided += ["the O(ε²) energy error numerically", "round-off"]
-    for f, rule in ((check_integrator, 'C16.P'), (check_operator, 'C16.K'), (check_no_selection_on_the_outcome, 'C16.K'), (check_momentum_space_dimension, 'C16.K')):
+    for f, rule in ((check_integrator, 'C16.P'), (check_operator, 'C16.K'), (check_no_selection_on_the_outcome, 'C16.K'), (check_momentum_space_dimension, 'C16.K'),
+                    (check_one_trajectory_per_proposal, 'C16.K')):
         try:
             f(ctx, rep)
         except Unsupported as u:
